@@ -1970,7 +1970,7 @@ func main() {
 			stride = 3
 		}
 		for k := 0; k <= len(rc.s2c) && hangs < maxHangs; k += stride {
-			if ci == 0 && o.N(1, 2) == 1 && k > 1200 && k%2 == 1 {
+			if ci == 0 && o.N(1, 2) == 1 && k > 700 && k%3 != 0 {
 				continue
 			}
 			botCut(o, &rc, k)
